@@ -71,13 +71,13 @@ def quote(r, v, allow_bare=True):
     return r.choice([v, v, "'" + v + "'", '"' + v + '"'])
 
 
-def gen_ops(r, maxlen):
+def gen_ops(r, maxlen, fn=False):
     """abstract operations; directory arguments use @R for the root (substituted per tree)"""
     ops = []
     n = 1 + r.below(maxlen)
     ups = 0
     for _ in range(n):
-        k = r.choice("aaapxxurrcccc")
+        k = r.choice("aaapxxurrccccff" if fn else "aaapxxurrcccc")
         name = r.choice(["A", "A", "B", "B", "C_1", "HOME", "IFS", "PWD"]) if r.below(4) else r.choice(["A", "B"])
         if name == "HOME":
             val = r.choice(["@R/home", "@R/d1", "@R/nope", "", "@R/l1", "d1"])
@@ -85,7 +85,7 @@ def gen_ops(r, maxlen):
             val = r.choice(IFSV)
         else:
             val = r.choice(VALUES)
-        if k in "apx":
+        if k in "apxf":
             ops.append((k, name, val))
         elif k == "u":
             ops.append(("u", r.choice(["A", "B", "C_1", "HOME", "IFS", "PWD", "A", "B", "a-b", "1x", "A=1"])))
@@ -111,6 +111,8 @@ def render(r, op, R):
         return "%s=%s" % (op[1], quote(r, sub(op[2])))
     if k == "p":
         return "%s=%s envcwd" % (op[1], quote(r, sub(op[2])))
+    if k == "f":
+        return "%s=%s fnop" % (op[1], quote(r, sub(op[2])))       # the prefix in front of a shell function (defined at the top of the script)
     if k == "x":
         return "export %s=%s" % (op[1], quote(r, sub(op[2])))
     if k == "u":
@@ -126,7 +128,7 @@ def enc_ops(ops, R):
     out = []
     for op in ops:
         k = op[0]
-        if k in "apx":
+        if k in "apxf":
             out.append("%s:%s:%s" % (k, hx(op[1]), hx(sub(op[2]))))
         elif k == "u":
             out.append("u:%s" % hx(op[1]))
@@ -192,7 +194,7 @@ def process(tier, rng, cicada):
     jobs = []
     for i in range(n):
         R = os.path.realpath(os.path.join(sb.dir, "t%d" % i, "p1", "p2", "R"))
-        ops = gen_ops(r, 30 if i % 3 else 8)
+        ops = gen_ops(r, 30 if i % 3 else 8, fn=True)
         env = init_env(r, R)
         lines = [render(r, op, R) for op in ops]
         c = Case("envproc", [",".join(hx(k) + ":" + hx(v) for k, v in env), ",".join(hx(x) for x in NAMES), ",".join(hx(l) for l in lines),
@@ -204,7 +206,7 @@ def process(tier, rng, cicada):
         c, R, ops, env, lines = job
         os.makedirs(os.path.dirname(R), exist_ok=True)
         make_tree(R)
-        script = []
+        script = ["function fnop() {", "    true", "}"]
         for k, (op, line) in enumerate(zip(ops, lines)):
             if op[0] == "p":
                 script.append("%s %s > out.%d" % (line, " ".join(NAMES), k))
